@@ -416,6 +416,16 @@ def b_sorted(it, args, kw, fr):
     h = it.reg.ext_models.get("sorted")
     if h is not None:
         return h(it, args, kw, fr)
+    if isinstance(v, VMap):
+        v = VSet(v.present, v.kt)
+    if isinstance(v, VSet) and v.elem.kind == "int" and not kw:
+        # the members in ascending order (no duplicates in a set)
+        r = z3.Const(it.ctx.namer("sorted"), z3.SeqSort(IntS))
+        x = z3.Int("x!srt")
+        i, j = z3.Int("i!srt"), z3.Int("j!srt")
+        it.ctx.assume(z3.ForAll([x], z3.Contains(r, z3.Unit(x)) == z3.Select(v.z, x)))
+        it.ctx.assume(z3.ForAll([i, j], z3.Implies(z3.And(0 <= i, i < j, j < z3.Length(r)), r[i] < r[j])))
+        return VSeq(r, "int")
     if isinstance(v, (VList, VTuple)) and len(v.items) <= 1 and not kw:
         return VList(list(v.items))
     raise OutOfSubset("sorted")
@@ -698,6 +708,10 @@ def m_str(it, s, meth, args, kwargs):
         if kind != "str":
             it.raise_("AttributeError", VStr("bytes has no encode"))
         enc = norm_enc(it.concrete(a[0]) if a else "utf8")
+        errors = it.concrete(a[1]) if len(a) > 1 else it.concrete(it.force(kwargs["errors"])) if "errors" in kwargs else "strict"
+        if errors != "strict":
+            # a lossy error handler ('ignore', 'replace', ...): some other function of the string, never raises
+            return VStr(uf(f"encode_{enc}_{errors}", StringS, StringS)(s.z), "bytes")
         out = uf(f"encode_{enc}", StringS, StringS)(s.z)
         if enc != "ascii":
             # ground instance of the codec round trip (assumed contract of the codec)
